@@ -105,6 +105,10 @@ type c15Change struct {
 	Target   string // assignment the change was aimed at
 	Affected string // "all" or the one neighbour address whose routes can be evaluated differently
 	Calls    []c15Call
+	// inverse builds (and applies to program p, which must be the program this change produced) the
+	// change that takes the touched object back: used by the multi-round histories to relax and
+	// tighten the same object in turn. round makes new statement names unique.
+	inverse func(p *c15Prog, round int) *c15Change
 }
 
 func c15DirName(d api.PolicyDirection) string {
@@ -164,6 +168,8 @@ type c15Case struct {
 	always  bool // always-compare-med
 	wantRR  bool // the reset is a ROUTE-REFRESH (export change only)
 	guards  map[string]string // policy name -> neighbour address its statements are guarded by
+	stmtSeq int               // makes the names of statements added by changes unique
+	hist    bool              // multi-round history: the base only (no change, no reset, no racing)
 }
 
 func (c *c15Case) isRS(i int) bool { return c.peers[i].Kind == simRSClient }
@@ -182,8 +188,11 @@ var c15Comms = []uint32{65000<<16 | 1, 65000<<16 | 2, 65000<<16 | 3, 65001<<16 |
 
 func c15CommStr(c uint32) string { return fmt.Sprintf("%d:%d", c>>16, c&0xffff) }
 
-func c15GenCase(idx int, r *rand.Rand) *c15Case {
-	c := &c15Case{idx: idx, r: r, guards: map[string]string{}, bursts: map[int][]c15Ann{}}
+func c15GenCase(idx int, r *rand.Rand) *c15Case { return c15GenCaseMode(idx, r, false) }
+
+// c15GenCaseMode: hist = only the base of a multi-round history (topology, routes, program P1).
+func c15GenCaseMode(idx int, r *rand.Rand, hist bool) *c15Case {
+	c := &c15Case{idx: idx, r: r, guards: map[string]string{}, bursts: map[int][]c15Ann{}, hist: hist}
 	// ---- topology
 	np := 2 + r.IntN(3)
 	topo := r.IntN(10) // 0-5 plain, 6-8 route server, 9 mixed
@@ -266,6 +275,13 @@ func c15GenCase(idx int, r *rand.Rand) *c15Case {
 		}
 		used[sk{s, pfx}] = true
 		c.routes = append(c.routes, c15Ann{Spk: s, Spec: c.routeSpec(s, pfx)})
+	}
+
+	if hist {
+		c.genProgram()
+		c.p2 = c.p1
+		c.computeFinal()
+		return c
 	}
 
 	// ---- reset by ROUTE-REFRESH? racing? (decided before the program: both shape it)
@@ -786,6 +802,137 @@ func (c *c15Case) setsInUse(p *c15Prog, dir api.PolicyDirection) map[string][]st
 	return out
 }
 
+// ---------------------------------------------------------------- change constructors
+// Each constructor mutates program p into the next program, records the management API call(s)
+// that do the same to a live server, and knows its own inverse.
+
+func (c *c15Case) mkAssignSet(p *c15Prog, kind, target string, dir api.PolicyDirection, names []string, def api.RouteAction, aff string) *c15Change {
+	a := p.asg(target, dir)
+	oldNames, oldDef := c15Names(a.Policies), a.DefaultAction
+	ch := &c15Change{Kind: kind, Dir: dir, Target: target, Affected: aff}
+	req := &api.SetPolicyAssignmentRequest{Assignment: &api.PolicyAssignment{Name: target, Direction: dir, Policies: c15PolRefs(names), DefaultAction: def}}
+	ch.Calls = []c15Call{{Desc: "SetPolicyAssignment " + c15Text(req), Do: func(s *BgpServer) error { return s.SetPolicyAssignment(c15Ctx, req) }}}
+	a.Policies, a.DefaultAction = c15PolRefs(names), def
+	ch.inverse = func(q *c15Prog, round int) *c15Change {
+		return c.mkAssignSet(q, kind, target, dir, oldNames, oldDef, aff)
+	}
+	return ch
+}
+
+func (c *c15Case) mkAssignAdd(p *c15Prog, target string, dir api.PolicyDirection, add, aff string) *c15Change {
+	a := p.asg(target, dir)
+	ch := &c15Change{Kind: "assign-add", Dir: dir, Target: target, Affected: aff}
+	req := &api.AddPolicyAssignmentRequest{Assignment: &api.PolicyAssignment{Name: target, Direction: dir, Policies: c15PolRefs([]string{add})}}
+	ch.Calls = []c15Call{{Desc: "AddPolicyAssignment " + c15Text(req), Do: func(s *BgpServer) error { return s.AddPolicyAssignment(c15Ctx, req) }}}
+	a.Policies = append(a.Policies, &api.Policy{Name: add})
+	ch.inverse = func(q *c15Prog, round int) *c15Change { return c.mkAssignDel(q, target, dir, add, aff) }
+	return ch
+}
+
+func (c *c15Case) mkAssignDel(p *c15Prog, target string, dir api.PolicyDirection, del, aff string) *c15Change {
+	a := p.asg(target, dir)
+	ch := &c15Change{Kind: "assign-del", Dir: dir, Target: target, Affected: aff}
+	req := &api.DeletePolicyAssignmentRequest{Assignment: &api.PolicyAssignment{Name: target, Direction: dir, Policies: c15PolRefs([]string{del})}}
+	ch.Calls = []c15Call{{Desc: "DeletePolicyAssignment " + c15Text(req), Do: func(s *BgpServer) error { return s.DeletePolicyAssignment(c15Ctx, req) }}}
+	var nw []*api.Policy
+	for _, x := range a.Policies {
+		if x.Name != del {
+			nw = append(nw, x)
+		}
+	}
+	a.Policies = nw
+	// (the inverse appends: the policy comes back at the end of the list)
+	ch.inverse = func(q *c15Prog, round int) *c15Change { return c.mkAssignAdd(q, target, dir, del, aff) }
+	return ch
+}
+
+func (c *c15Case) mkSetAdd(p *c15Prog, dir api.PolicyDirection, nw *api.DefinedSet, aff string) *c15Change {
+	set := p.set(nw.Name)
+	ch := &c15Change{Kind: "defset-add", Dir: dir, Target: "set:" + nw.Name, Affected: aff}
+	req := &api.AddDefinedSetRequest{DefinedSet: proto.Clone(nw).(*api.DefinedSet)}
+	ch.Calls = []c15Call{{Desc: "AddDefinedSet " + c15Text(req), Do: func(s *BgpServer) error { return s.AddDefinedSet(c15Ctx, req) }}}
+	set.List = append(set.List, nw.List...)
+	set.Prefixes = append(set.Prefixes, nw.Prefixes...)
+	ch.inverse = func(q *c15Prog, round int) *c15Change { return c.mkSetDel(q, dir, nw, aff) }
+	return ch
+}
+
+func (c *c15Case) mkSetDel(p *c15Prog, dir api.PolicyDirection, rm *api.DefinedSet, aff string) *c15Change {
+	set := p.set(rm.Name)
+	ch := &c15Change{Kind: "defset-del", Dir: dir, Target: "set:" + rm.Name, Affected: aff}
+	req := &api.DeleteDefinedSetRequest{DefinedSet: proto.Clone(rm).(*api.DefinedSet)}
+	ch.Calls = []c15Call{{Desc: "DeleteDefinedSet " + c15Text(req), Do: func(s *BgpServer) error { return s.DeleteDefinedSet(c15Ctx, req) }}}
+	var list []string
+	for _, x := range set.List {
+		gone := false
+		for _, y := range rm.List {
+			gone = gone || x == y
+		}
+		if !gone {
+			list = append(list, x)
+		}
+	}
+	var pfx []*api.Prefix
+	for _, x := range set.Prefixes {
+		gone := false
+		for _, y := range rm.Prefixes {
+			gone = gone || proto.Equal(x, y)
+		}
+		if !gone {
+			pfx = append(pfx, x)
+		}
+	}
+	set.List, set.Prefixes = list, pfx
+	ch.inverse = func(q *c15Prog, round int) *c15Change { return c.mkSetAdd(q, dir, rm, aff) }
+	return ch
+}
+
+func (c *c15Case) mkSetReplace(p *c15Prog, dir api.PolicyDirection, nw *api.DefinedSet, aff string) *c15Change {
+	set := p.set(nw.Name)
+	old := proto.Clone(set).(*api.DefinedSet)
+	ch := &c15Change{Kind: "defset-replace", Dir: dir, Target: "set:" + nw.Name, Affected: aff}
+	req := &api.AddDefinedSetRequest{DefinedSet: proto.Clone(nw).(*api.DefinedSet), Replace: true}
+	ch.Calls = []c15Call{{Desc: "AddDefinedSet " + c15Text(req), Do: func(s *BgpServer) error { return s.AddDefinedSet(c15Ctx, req) }}}
+	set.List, set.Prefixes = nw.List, nw.Prefixes
+	ch.inverse = func(q *c15Prog, round int) *c15Change { return c.mkSetReplace(q, dir, old, aff) }
+	return ch
+}
+
+func (c *c15Case) mkPolAddStmt(p *c15Prog, dir api.PolicyDirection, target, name string, st *api.Statement, aff string) *c15Change {
+	pol := p.pol(name)
+	ch := &c15Change{Kind: "policy-add-stmt", Dir: dir, Target: target, Affected: aff}
+	req := &api.AddPolicyRequest{Policy: &api.Policy{Name: name, Statements: []*api.Statement{proto.Clone(st).(*api.Statement)}}}
+	ch.Calls = []c15Call{{Desc: "AddPolicy " + c15Text(req), Do: func(s *BgpServer) error { return s.AddPolicy(c15Ctx, req) }}}
+	pol.Statements = append(pol.Statements, st)
+	ch.inverse = func(q *c15Prog, round int) *c15Change { return c.mkPolDelStmt(q, dir, target, name, st.Name, aff) }
+	return ch
+}
+
+func (c *c15Case) mkPolDelStmt(p *c15Prog, dir api.PolicyDirection, target, name, stmt, aff string) *c15Change {
+	pol := p.pol(name)
+	ch := &c15Change{Kind: "policy-del-stmt", Dir: dir, Target: target, Affected: aff}
+	req := &api.DeletePolicyRequest{Policy: &api.Policy{Name: name, Statements: []*api.Statement{{Name: stmt}}}}
+	ch.Calls = []c15Call{{Desc: "DeletePolicy " + c15Text(req), Do: func(s *BgpServer) error { return s.DeletePolicy(c15Ctx, req) }}}
+	var removed *api.Statement
+	var nw []*api.Statement
+	for _, x := range pol.Statements {
+		if x.Name == stmt {
+			removed = x
+		} else {
+			nw = append(nw, x)
+		}
+	}
+	pol.Statements = nw
+	// the inverse appends the statement under a new name (gobgp keeps the removed statement object
+	// registered under the old one); it comes back at the end of the policy
+	ch.inverse = func(q *c15Prog, round int) *c15Change {
+		st := proto.Clone(removed).(*api.Statement)
+		st.Name = fmt.Sprintf("%s_r%d", strings.SplitN(removed.Name, "_r", 2)[0], round)
+		return c.mkPolAddStmt(q, dir, target, name, st, aff)
+	}
+	return ch
+}
+
 // genChange draws one change of direction dir against program p (mutating p into the next program).
 func (c *c15Case) genChange(p *c15Prog, dir api.PolicyDirection) *c15Change {
 	r := c.r
@@ -799,10 +946,8 @@ func (c *c15Case) genChange(p *c15Prog, dir api.PolicyDirection) *c15Change {
 		for _, n := range cur {
 			in[n] = true
 		}
-		ch := &c15Change{Dir: dir, Target: target}
 		switch k := r.IntN(100); {
 		case k < 16: // ---- replace the assignment
-			ch.Kind = "assign-set"
 			n := 1 + r.IntN(3)
 			var nw []string
 			for _, i := range r.Perm(len(pool))[:n] {
@@ -840,12 +985,8 @@ func (c *c15Case) genChange(p *c15Prog, dir api.PolicyDirection) *c15Change {
 					aff = c.affectedByPolicies(target, moved)
 				}
 			}
-			ch.Affected = aff
-			req := &api.SetPolicyAssignmentRequest{Assignment: &api.PolicyAssignment{Name: target, Direction: dir, Policies: c15PolRefs(nw), DefaultAction: def}}
-			ch.Calls = []c15Call{{Desc: "SetPolicyAssignment " + c15Text(req), Do: func(s *BgpServer) error { return s.SetPolicyAssignment(c15Ctx, req) }}}
-			a.Policies, a.DefaultAction = c15PolRefs(nw), def
+			return c.mkAssignSet(p, "assign-set", target, dir, nw, def, aff)
 		case k < 30: // ---- add a policy to the assignment (appended)
-			ch.Kind = "assign-add"
 			var cand []string
 			for _, n := range pool {
 				if !in[n] {
@@ -856,33 +997,15 @@ func (c *c15Case) genChange(p *c15Prog, dir api.PolicyDirection) *c15Change {
 				continue
 			}
 			add := cand[r.IntN(len(cand))]
-			ch.Affected = c.affectedByPolicies(target, []string{add})
-			req := &api.AddPolicyAssignmentRequest{Assignment: &api.PolicyAssignment{Name: target, Direction: dir, Policies: c15PolRefs([]string{add})}}
-			ch.Calls = []c15Call{{Desc: "AddPolicyAssignment " + c15Text(req), Do: func(s *BgpServer) error { return s.AddPolicyAssignment(c15Ctx, req) }}}
-			a.Policies = append(a.Policies, &api.Policy{Name: add})
+			return c.mkAssignAdd(p, target, dir, add, c.affectedByPolicies(target, []string{add}))
 		case k < 42: // ---- delete a policy from the assignment
-			ch.Kind = "assign-del"
 			if len(cur) == 0 {
 				continue
 			}
 			del := cur[r.IntN(len(cur))]
-			ch.Affected = c.affectedByPolicies(target, []string{del})
-			req := &api.DeletePolicyAssignmentRequest{Assignment: &api.PolicyAssignment{Name: target, Direction: dir, Policies: c15PolRefs([]string{del})}}
-			ch.Calls = []c15Call{{Desc: "DeletePolicyAssignment " + c15Text(req), Do: func(s *BgpServer) error { return s.DeletePolicyAssignment(c15Ctx, req) }}}
-			var nw []*api.Policy
-			for _, x := range a.Policies {
-				if x.Name != del {
-					nw = append(nw, x)
-				}
-			}
-			a.Policies = nw
+			return c.mkAssignDel(p, target, dir, del, c.affectedByPolicies(target, []string{del}))
 		case k < 50: // ---- flip the default action
-			ch.Kind = "default-flip"
-			ch.Affected = c.affectedByPolicies(target, nil)
-			def := 3 - a.DefaultAction
-			req := &api.SetPolicyAssignmentRequest{Assignment: &api.PolicyAssignment{Name: target, Direction: dir, Policies: c15PolRefs(cur), DefaultAction: def}}
-			ch.Calls = []c15Call{{Desc: "SetPolicyAssignment " + c15Text(req), Do: func(s *BgpServer) error { return s.SetPolicyAssignment(c15Ctx, req) }}}
-			a.DefaultAction = def
+			return c.mkAssignSet(p, "default-flip", target, dir, cur, 3-a.DefaultAction, c.affectedByPolicies(target, nil))
 		case k < 78: // ---- edit a defined set that is in use
 			use := c.setsInUse(p, dir)
 			if len(use) == 0 {
@@ -903,12 +1026,9 @@ func (c *c15Case) genChange(p *c15Prog, dir api.PolicyDirection) *c15Change {
 					aff = c15Union(aff, c.affectedByPolicies(c15Global, []string{pol}))
 				}
 			}
-			ch.Affected = aff
-			ch.Target = "set:" + name
 			v6 := strings.HasPrefix(name, "ps6")
 			switch kk := r.IntN(3); kk {
 			case 0:
-				ch.Kind = "defset-add"
 				extra := c.genSet(set.DefinedType, name, v6)
 				// only members not yet present
 				nw := &api.DefinedSet{DefinedType: set.DefinedType, Name: name}
@@ -933,12 +1053,8 @@ func (c *c15Case) genChange(p *c15Prog, dir api.PolicyDirection) *c15Change {
 				if len(nw.List)+len(nw.Prefixes) == 0 {
 					continue
 				}
-				req := &api.AddDefinedSetRequest{DefinedSet: nw}
-				ch.Calls = []c15Call{{Desc: "AddDefinedSet " + c15Text(req), Do: func(s *BgpServer) error { return s.AddDefinedSet(c15Ctx, req) }}}
-				set.List = append(set.List, nw.List...)
-				set.Prefixes = append(set.Prefixes, nw.Prefixes...)
+				return c.mkSetAdd(p, dir, nw, aff)
 			case 1:
-				ch.Kind = "defset-del"
 				n := len(set.List) + len(set.Prefixes)
 				if n < 2 {
 					continue
@@ -947,25 +1063,18 @@ func (c *c15Case) genChange(p *c15Prog, dir api.PolicyDirection) *c15Change {
 				rm := &api.DefinedSet{DefinedType: set.DefinedType, Name: name}
 				if len(set.List) > 0 {
 					rm.List = []string{set.List[k]}
-					set.List = append(append([]string{}, set.List[:k]...), set.List[k+1:]...)
 				} else {
 					rm.Prefixes = []*api.Prefix{set.Prefixes[k]}
-					set.Prefixes = append(append([]*api.Prefix{}, set.Prefixes[:k]...), set.Prefixes[k+1:]...)
 				}
-				req := &api.DeleteDefinedSetRequest{DefinedSet: rm}
-				ch.Calls = []c15Call{{Desc: "DeleteDefinedSet " + c15Text(req), Do: func(s *BgpServer) error { return s.DeleteDefinedSet(c15Ctx, req) }}}
+				return c.mkSetDel(p, dir, rm, aff)
 			default:
-				ch.Kind = "defset-replace"
 				nw := c.genSet(set.DefinedType, name, v6)
 				if proto.Equal(nw, set) {
 					continue
 				}
-				req := &api.AddDefinedSetRequest{DefinedSet: nw, Replace: true}
-				ch.Calls = []c15Call{{Desc: "AddDefinedSet " + c15Text(req), Do: func(s *BgpServer) error { return s.AddDefinedSet(c15Ctx, req) }}}
-				set.List, set.Prefixes = nw.List, nw.Prefixes
+				return c.mkSetReplace(p, dir, nw, aff)
 			}
 		case k < 87: // ---- append a statement to a policy that is assigned
-			ch.Kind = "policy-add-stmt"
 			if len(cur) == 0 {
 				continue
 			}
@@ -975,16 +1084,14 @@ func (c *c15Case) genChange(p *c15Prog, dir api.PolicyDirection) *c15Change {
 			if g := c.guardOf(name); g != "" {
 				ctx.guard = pol.Statements[0].Conditions.NeighborSet.Name
 			}
-			st := c.genStmt(fmt.Sprintf("%s_x%d", name, len(pol.Statements)), ctx)
-			ch.Affected = c.affectedByPolicies(c15Global, []string{name})
+			c.stmtSeq++
+			st := c.genStmt(fmt.Sprintf("%s_x%d", name, c.stmtSeq), ctx)
+			aff := c.affectedByPolicies(c15Global, []string{name})
 			if ctx.rs {
-				ch.Affected = "all"
+				aff = "all"
 			}
-			req := &api.AddPolicyRequest{Policy: &api.Policy{Name: name, Statements: []*api.Statement{proto.Clone(st).(*api.Statement)}}}
-			ch.Calls = []c15Call{{Desc: "AddPolicy " + c15Text(req), Do: func(s *BgpServer) error { return s.AddPolicy(c15Ctx, req) }}}
-			pol.Statements = append(pol.Statements, st)
+			return c.mkPolAddStmt(p, dir, target, name, st, aff)
 		default: // ---- remove a statement from a policy that is assigned
-			ch.Kind = "policy-del-stmt"
 			if len(cur) == 0 {
 				continue
 			}
@@ -994,15 +1101,12 @@ func (c *c15Case) genChange(p *c15Prog, dir api.PolicyDirection) *c15Change {
 				continue
 			}
 			k := r.IntN(len(pol.Statements))
-			ch.Affected = c.affectedByPolicies(c15Global, []string{name})
+			aff := c.affectedByPolicies(c15Global, []string{name})
 			if strings.HasPrefix(name, "r") {
-				ch.Affected = "all"
+				aff = "all"
 			}
-			req := &api.DeletePolicyRequest{Policy: &api.Policy{Name: name, Statements: []*api.Statement{{Name: pol.Statements[k].Name}}}}
-			ch.Calls = []c15Call{{Desc: "DeletePolicy " + c15Text(req), Do: func(s *BgpServer) error { return s.DeletePolicy(c15Ctx, req) }}}
-			pol.Statements = append(append([]*api.Statement{}, pol.Statements[:k]...), pol.Statements[k+1:]...)
+			return c.mkPolDelStmt(p, dir, target, name, pol.Statements[k].Name, aff)
 		}
-		return ch
 	}
 	return nil
 }
